@@ -1,7 +1,134 @@
 import Driver.Util
+import Model.ClientV
+import Model.Sha256
+/-! Driver for engine `client` (C12): byte-exact re-run of the client's acceptance conditions
+(`ClientV.scanTile`, `clientEntry`, `checkInclusion`, `clientCheckpoint` — the definitions
+`Props/C12.lean` is about) on what the real `sunlight.Client` was served, with real SHA-256 as the
+`HashFn`. ECDSA is an oracle table: `valid=` lists the (message, signature) pairs the harness
+verified under the configured key.
+
+  tile  <case> allow= start= i0= hs=<32-byte hashes> data=<tile> => ok=<0|1> y=<i:leafhash16,…|->
+  entry <case> allow= n= root= idx= data=<tile|-> proof=<hashes, top sibling first|-> => ok <leafhash16> | err
+  incl  <case> allow= n= root= keyid= sct=<bad | version,logid,timestamp,ext,sig> data= proof= valid=<msg:sig|-> => ok <leafhash16> | err
+  ckpt  <case> keyid= kh= text= sigs=<name:hash:sig,…|-> valid=<msg:sig,…|-> => ok <origin> <n> <root> | err
+  ckpt  <case> malformed => err -/
 namespace Driver.Client
-/-- stub: engine not implemented yet -/
+open _root_.ClientV Codec
+
+def sha (b : Bytes) : Bytes := Bytes.ofByteArray (Sha256.hash (Bytes.toByteArray b))
+
+/-- RFC 6962 hashing: `tlog.RecordHash`, `tlog.NodeHash` -/
+def shaHF : HashFn Bytes := ⟨fun b => sha (0 :: b), fun a b => sha (1 :: a ++ b), sha []⟩
+
+def kv (ws : List String) (k : String) : Option String :=
+  (ws.find? (·.startsWith (k ++ "="))).map fun w => (w.drop (k.length + 1)).toString
+
+def bit (s : String) : Option Bool := if s == "1" then some true else if s == "0" then some false else none
+
+def chunks32 : Nat → Bytes → List Bytes
+  | 0, _ => []
+  | fuel + 1, bs => if bs.isEmpty then [] else bs.take 32 :: chunks32 fuel (bs.drop 32)
+
+def hashList (s : String) : Option (List Bytes) := do
+  let b ← Bytes.ofHex s
+  pure (chunks32 b.length b)
+
+def tag (e : LogEntry) : String :=
+  match merkleTreeLeaf e with
+  | some m => (Bytes.toHex (shaHF.leaf m)).take 16 |>.toString
+  | none => "?"
+
+def items (s : String) : List String := if s == "-" then [] else s.splitOn ","
+
+def pairOf (s : String) : Option (Bytes × Bytes) :=
+  match s.splitOn ":" with
+  | [a, b] => do pure (← Bytes.ofHex a, ← Bytes.ofHex b)
+  | _ => none
+
+structure St where
+  t : Driver.Tally := {}
+
+def St.bad (st : St) (n : Nat) (msg : String) : IO St := do
+  IO.println s!"MISMATCH {n} {msg}"
+  return { st with t := { st.t with mismatches := st.t.mismatches + 1 } }
+
+def St.good (st : St) (branch : String) : St :=
+  { st with t := { st.t.bump branch with ok := st.t.ok + 1 } }
+
+def kindOf (name : String) : String := (name.splitOn "/").getLastD "?"
+
+def compare (st : St) (n : Nat) (name kind model impl : String) : IO St :=
+  if model == impl then return st.good s!"{kind}:{kindOf name}:{if model.startsWith "err" || model.startsWith "ok=0" then "reject" else "accept"}"
+  else st.bad n s!"{kind} {name}: model={model} impl={impl}"
+
+def onLine (st : St) (n : Nat) (l : String) : IO St := do
+  let st := { st with t := { st.t with lines := st.t.lines + 1 } }
+  let ws := Driver.words l
+  let (facts, implWs) := ws.span (· != "=>")
+  let impl := " ".intercalate (implWs.drop 1)
+  match facts with
+  | "tile" :: name :: rest =>
+    match bit ((kv rest "allow").getD ""), ((kv rest "start").getD "").toNat?, ((kv rest "i0").getD "").toNat?,
+          hashList ((kv rest "hs").getD ""), Bytes.ofHex ((kv rest "data").getD "") with
+    | some allow, some start, some i0, some hs, some data =>
+      let (ys, ok) := scanTile shaHF allow start i0 data hs
+      let y := if ys.isEmpty then "-" else ",".intercalate (ys.map fun (i, e) => s!"{i}:{tag e}")
+      compare st n name "tile" s!"ok={if ok then 1 else 0} y={y}" impl
+    | _, _, _, _, _ => st.bad n s!"unparsable tile line {name}"
+  | "entry" :: name :: rest =>
+    match bit ((kv rest "allow").getD ""), ((kv rest "n").getD "").toNat?, Bytes.ofHex ((kv rest "root").getD ""),
+          ((kv rest "idx").getD "").toInt?, Bytes.ofHex ((kv rest "data").getD ""), hashList ((kv rest "proof").getD "") with
+    | some allow, some tn, some root, some idx, some data, some proof =>
+      let model :=
+        if idx < 0 then "err" else
+        match clientEntry shaHF allow ⟨tn, root⟩ idx.toNat data proof with
+        | some e => s!"ok {tag e}"
+        | none => "err"
+      compare st n name "entry" model impl
+    | _, _, _, _, _, _ => st.bad n s!"unparsable entry line {name}"
+  | "incl" :: name :: rest =>
+    match bit ((kv rest "allow").getD ""), ((kv rest "n").getD "").toNat?, Bytes.ofHex ((kv rest "root").getD ""),
+          Bytes.ofHex ((kv rest "keyid").getD ""), Bytes.ofHex ((kv rest "data").getD ""), hashList ((kv rest "proof").getD "") with
+    | some allow, some tn, some root, some keyId, some data, some proof =>
+      let sctS := (kv rest "sct").getD ""
+      let valid := (kv rest "valid").getD "-"
+      let vp := if valid == "-" then none else pairOf valid
+      let sigVerify : Bytes → Bytes → Bool := fun m s => vp == some (m, s)
+      let model :=
+        if sctS == "bad" then "err" else
+        match sctS.splitOn "," with
+        | [v, lid, ts, ext, sig] =>
+          match v.toNat?, Bytes.ofHex lid, ts.toNat?, Bytes.ofHex ext, Bytes.ofHex sig with
+          | some v, some lid, some ts, some ext, some sig =>
+            match checkInclusion shaHF allow keyId sigVerify ⟨tn, root⟩ (fun _ => (data, proof)) ⟨v, lid, ts, ext, sig⟩ with
+            | some e => s!"ok {tag e}"
+            | none => "err"
+          | _, _, _, _, _ => "unparsable-sct"
+        | _ => "unparsable-sct"
+      compare st n name "incl" model impl
+    | _, _, _, _, _, _ => st.bad n s!"unparsable incl line {name}"
+  | ["ckpt", name, "malformed"] => compare st n name "ckpt-malformed" "err" impl
+  | "ckpt" :: name :: rest =>
+    match Bytes.ofHex ((kv rest "keyid").getD ""), ((kv rest "kh").getD "").toNat?, Bytes.ofHex ((kv rest "text").getD "") with
+    | some keyId, some kh, some text =>
+      let sigs := (items ((kv rest "sigs").getD "-")).filterMap fun s =>
+        match s.splitOn ":" with
+        | [nm, h, sg] => do pure (⟨← Bytes.ofHex nm, ← h.toNat?, ← Bytes.ofHex sg⟩ : Checkpoint.SigLine)
+        | _ => none
+      let valid := (items ((kv rest "valid").getD "-")).filterMap pairOf
+      let key : Checkpoint.PubKey := { kind := .ecdsa, id := keyId }
+      let cv : Checkpoint.Crypto := fun k m s => k == key && valid.contains (m, s)
+      let model :=
+        match clientCheckpoint cv key (fun _ => kh) { text := text, sigs := sigs } with
+        | some c => s!"ok {Bytes.toHexP c.origin} {c.n} {Bytes.toHex c.hash}"
+        | none => "err"
+      compare st n name "ckpt" model impl
+    | _, _, _ => st.bad n s!"unparsable ckpt line {name}"
+  | [] => return st
+  | _ => st.bad n s!"bad-line: {(l.take 80).toString}"
+
 def main : IO UInt32 := do
-  IO.println "MISMATCH 0 engine client has no driver yet"
+  let st ← Driver.foldLines ({} : St) onLine
+  IO.println st.t.summary
   return 0
 end Driver.Client
